@@ -56,7 +56,7 @@ func TextConsumer() Consumer {
 		t := reflect.TypeOf(data)
 		if data != nil && t.Kind() == reflect.Ptr {
 			v := reflect.Indirect(reflect.ValueOf(data))
-			if t.Elem().Kind() == reflect.String {
+			if t.Elem().Kind() == reflect.String && v.IsValid() {
 				v.SetString(string(b))
 				return nil
 			}
@@ -98,6 +98,9 @@ func TextProducer() Producer {
 		}
 
 		v := reflect.Indirect(reflect.ValueOf(data))
+		if !v.IsValid() {
+			return fmt.Errorf("nil pointer (%T) is not a supported type by the TextProducer", data)
+		}
 		if t := v.Type(); t.Kind() == reflect.Struct || t.Kind() == reflect.Slice {
 			b, err := swag.WriteJSON(data)
 			if err != nil {
